@@ -11,6 +11,10 @@ from .. import gen, contracts, prog
 from . import c02
 
 PROP = "C06"
+LEVEL_TEXT = 'Programs (2-14 steps, int64 and hostile-float64) are executed on the library as written (L), with every derived array replaced by a freshly built equal array (F) and on a list model (M); L=F=M on final contents and 40 kinds of observations, purity tap around every read. Exploration over programs.'
+LEVEL_NOTE = "trusts numpy 2.x, CPython (copy.copy, slice semantics, big ints) and the reference model in rtmon/props/c06.py; decides the executions it produces, nothing more"
+TECHNIQUE = 'runtime monitoring: differential execution L/F + sequential list model over generated straight-line programs; purity tap'
+DESIGN_REF = "DESIGN.md sections 0, 5 (C06), 7"
 RULE = ("case = straight-line program (init, selections of selections, aliases, ufuncs with scalar / column / ragged operands, concatenate, sort, cumsum, diff, "
         "where, unique, zeros_like, assignments with scalar / flat / column / ragged / variable values, mask assignment, 40 kinds of observations); "
         "distinct = hash of the program; non-trivial = at least one observation or assignment applied to a derived array")
